@@ -355,6 +355,18 @@ func gen(seed uint64, tier string, idx int) sim.CaseI {
 		if dir != "" && wr.Bool(0.3) {
 			p.Imports = append(p.Imports, "main.test/sub@v0")
 		}
+		if wr.Bool(0.15) {
+			// the same module imported once with its major version and once without — and, if it
+			// has another major, that one too
+			m := mps[wr.Intn(len(mps))]
+			maj := m.path[strings.LastIndex(m.path, "@"):]
+			p.Imports = append(p.Imports, m.base+"/"+m.dirs[0]+maj, m.base+"/"+m.dirs[len(m.dirs)-1])
+			for _, o := range mps {
+				if o.base == m.base && o.path != m.path {
+					p.Imports = append(p.Imports, o.base+"/"+o.dirs[wr.Intn(len(o.dirs))]+o.path[strings.LastIndex(o.path, "@"):])
+				}
+			}
+		}
 		if twinB != nil && dir == "" {
 			p.Imports = append(p.Imports, twinB.base+"/"+twinB.dirs[0]+"@v0", twinB.base+"/"+twinB.dirs[0]+"@v1")
 		}
@@ -879,15 +891,58 @@ var (
 
 // reference computes the outcome under the canonical schedule (callbacks
 // answered in program order, no fault), once per universe.
-func reference(t *testing.T, c *Case) tidyOutcome {
-	key, _ := json.Marshal([]any{c.Mods, c.MainDeps, c.MainPkgs, c.Stack})
+func reference(t *testing.T, c *Case) tidyOutcome { return referenceFrom(t, c, c.MainDeps) }
+
+// renamed is the same universe with the package directories p0..p3 renamed p3..p0 everywhere
+// (directories of every module version, every import). Directory names mean nothing: module
+// paths, versions, requirements and which package imports which stay as they are. What
+// changes is the order in which packages are visited wherever the loader sorts by import path.
+func renamed(c *Case) *Case {
+	d := c.clone()
+	ren := func(p string) string {
+		// the last path element, before an optional @major
+		at := strings.LastIndex(p, "@")
+		tail := ""
+		if at >= 0 {
+			p, tail = p[:at], p[at:]
+		}
+		i := strings.LastIndex(p, "/") + 1
+		if e := p[i:]; len(e) == 2 && e[0] == 'p' && e[1] >= '0' && e[1] <= '3' {
+			p = p[:i] + "p" + string('0'+('3'-e[1]))
+		}
+		return p + tail
+	}
+	fix := func(pk *Pkg, isMain bool) {
+		if !isMain {
+			pk.Dir = ren(pk.Dir)
+		}
+		for i := range pk.Imports {
+			pk.Imports[i] = ren(pk.Imports[i])
+		}
+		if pk.Extra != "" {
+			pk.Extra = ren(pk.Extra)
+		}
+	}
+	for i := range d.Mods {
+		for j := range d.Mods[i].Pkgs {
+			fix(&d.Mods[i].Pkgs[j], false)
+		}
+	}
+	for j := range d.MainPkgs {
+		fix(&d.MainPkgs[j], true)
+	}
+	return d
+}
+
+func referenceFrom(t *testing.T, c *Case, mainDeps []Req) tidyOutcome {
+	key, _ := json.Marshal([]any{c.Mods, mainDeps, c.MainPkgs, c.Stack})
 	refMu.Lock()
 	if o, ok := refCache[string(key)]; ok {
 		refMu.Unlock()
 		return o
 	}
 	refMu.Unlock()
-	u, err := buildUniverse(c, c.MainDeps)
+	u, err := buildUniverse(c, mainDeps)
 	if err != nil {
 		sim.Trouble("%v", err)
 	}
@@ -1015,6 +1070,9 @@ func exec1(t *testing.T, ci sim.CaseI, choices []uint32, keepLog bool) *sim.Outc
 			// P5: the outcome is the one of the canonical schedule
 			if (first.err != nil) != (ref.err != nil) || (first.err == nil && first.canon != ref.canon) {
 				v = &sim.Violation{Class: "schedule-dependent-result", Msg: fmt.Sprintf("tidy under this schedule: %s\ncanonical schedule:       %s", first, ref)}
+			} else if rn := referenceFrom(t, renamed(c), c.MainDeps); (rn.err != nil) != (ref.err != nil) || (rn.err == nil && rn.canon != ref.canon) {
+				// the same universe with its package directories renamed: names mean nothing
+				v = &sim.Violation{Class: "result-depends-on-package-names", Msg: fmt.Sprintf("tidy: %s\nwith the package directories p0..p3 renamed p3..p0 everywhere: %s", ref, rn)}
 			} else if v = consistent(u, first); v != nil {
 				// P3 reported
 			} else if v = resolves(c, u, first, h.cnt); v != nil {
